@@ -187,6 +187,9 @@ func genDraw(t *rapid.T) Draw {
 		return d
 	case k <= 6:
 		return Draw{Kind: "image", Img: rapid.IntRange(0, 2).Draw(t, "img"), XY: []float64{coord(t, "ix"), coord(t, "iy")}, Res: float64(rapid.IntRange(1, 8).Draw(t, "res")) / 2, View: rapid.IntRange(0, 4).Draw(t, "view")}
+	case k == 8 && rapid.Bool().Draw(t, "vertical"):
+		// vertical writing with upright glyphs: the same font is then registered a second time for the vertical direction
+		return Draw{Kind: "vtext", Face: rapid.IntRange(0, 1).Draw(t, "face"), Text: texts[rapid.IntRange(0, 1).Draw(t, "text")], XY: []float64{coord(t, "tx"), coord(t, "ty")}, Img: rapid.IntRange(0, 1).Draw(t, "upright")}
 	case k <= 8:
 		return Draw{Kind: "text", Face: rapid.IntRange(0, 4).Draw(t, "face"), Text: texts[rapid.IntRange(0, len(texts)-1).Draw(t, "text")], XY: []float64{coord(t, "tx"), coord(t, "ty")}, View: rapid.IntRange(0, 4).Draw(t, "view")}
 	default:
@@ -352,6 +355,15 @@ func build(c Case) (out built, err error) {
 				case "text":
 					ctx.DrawText(d.XY[0], d.XY[1], canvas.NewTextLine(faces[d.Face], d.Text, canvas.Left))
 					out.pageFonts[i][d.Face] = true
+				case "vtext":
+					rt := canvas.NewRichText(faces[d.Face])
+					rt.SetWritingMode(canvas.VerticalRL)
+					if d.Img == 1 {
+						rt.SetTextOrientation(canvas.Upright)
+					}
+					rt.WriteString(d.Text)
+					ctx.DrawText(d.XY[0], d.XY[1], rt.ToText(0, 60, canvas.Left, canvas.Top, 0, 0))
+					out.pageFonts[i][d.Face] = true
 				case "link":
 					r.AddLink(d.URI, canvas.Rect{X0: math.Min(d.XY[0], d.XY[2]), Y0: math.Min(d.XY[1], d.XY[3]), X1: math.Max(d.XY[0], d.XY[2]), Y1: math.Max(d.XY[1], d.XY[3])})
 					out.nlinks[i]++
@@ -388,7 +400,7 @@ func checkCase(c Case, r *vf.R) error {
 	for i, pg := range c.Pages {
 		for _, d := range pg.Draws {
 			switch d.Kind {
-			case "text":
+			case "text", "vtext":
 				hasText = true
 			case "image":
 				hasImg = true
